@@ -233,8 +233,19 @@ def dry_pairs() -> list[dict]:
     for ext, (block, cm) in blocks.items():
         plain = [l % "a" if "%s" in l else l for l in block]
         same = list(plain)
-        for variant in range(6):
+        for variant in range(10):
+            tagv = variant
             other: list[str] = []
+            first = list(plain)
+            doc = ({"py": ['"""Validation helpers.', "", "Checks the shape of user records.", '"""', ""],
+                    "ts": ["/**", " * Formats an error for display.", " * @param error the error", " * @returns text", " */"]}[ext])
+            if variant >= 6:
+                # documentation blocks (docstring / JSDoc) above the code: skipped by the tokenizer, lines still count
+                layout = variant - 6
+                variant = (0, 2, 4, 1)[layout] or 8
+                other += doc + (doc[1:-1] if ext == "ts" and layout % 2 else [])
+                if layout >= 2:
+                    first = doc[:2] + doc[-2:] + first if ext == "ts" else doc + first
             if variant & 1:
                 other += [f"{cm} licence banner line {k}" for k in range(3 + variant)] + [""]
             for i, l in enumerate(same):
@@ -246,9 +257,9 @@ def dry_pairs() -> list[dict]:
             if variant == 0:
                 other = [""] * 5 + same
             for order in (0, 1):
-                files = [(f"src/a_first.{ext}", "\n".join(plain) + "\n"), (f"src/b_second.{ext}", "\n".join(other) + "\n")]
+                files = [(f"src/a_first.{ext}", "\n".join(first) + "\n"), (f"src/b_second.{ext}", "\n".join(other) + "\n")]
                 out.append({"files": files if order == 0 else list(reversed(files)), "cmd": "dry",
-                            "cfg_text": "dry:\n  enabled: true\n", "tag": f"dry-{ext}-v{variant}-o{order}"})
+                            "cfg_text": "dry:\n  enabled: true\n", "tag": f"dry-{ext}-v{tagv}-o{order}"})
     return out
 
 
